@@ -318,6 +318,68 @@ pub fn run_cb() -> i32 {
             }
             // stream N D: a StreamSource over a stream with N items ready at once, D dispatches: how many items came, in
             // order?, how many `None`s, is the source still in the loop
+            // slab OPS…: sI = schedule task I, cI = complete task I and wake it, wI = wake it, d = dispatch.  Tasks are
+            // manual futures (Ready(I) once their flag is set; store their waker otherwise).  What is delivered, in order?
+            "slab" => {
+                use std::sync::atomic::{AtomicBool, Ordering};
+                use std::sync::{Arc, Mutex};
+                struct Manual {
+                    id: usize,
+                    flag: Arc<AtomicBool>,
+                    waker: Arc<Mutex<Option<std::task::Waker>>>,
+                }
+                impl Future for Manual {
+                    type Output = usize;
+                    fn poll(self: Pin<&mut Self>, cx: &mut Context<'_>) -> Poll<usize> {
+                        if self.flag.load(Ordering::SeqCst) {
+                            Poll::Ready(self.id)
+                        } else {
+                            *self.waker.lock().unwrap() = Some(cx.waker().clone());
+                            Poll::Pending
+                        }
+                    }
+                }
+                let ops: Vec<String> = w[1..].iter().map(|s| s.to_string()).collect();
+                let res = std::panic::catch_unwind(move || {
+                    let mut el: EventLoop<'static, ()> = EventLoop::try_new().unwrap();
+                    let (exec, scheduler) = executor::<usize>().unwrap();
+                    let delivered = Rc::new(RefCell::new(Vec::new()));
+                    let d2 = delivered.clone();
+                    el.handle().insert_source(exec, move |r, _, _| d2.borrow_mut().push(r)).map_err(|e| e.error).unwrap();
+                    let mut flags: Vec<Arc<AtomicBool>> = Vec::new();
+                    let mut wakers: Vec<Arc<Mutex<Option<std::task::Waker>>>> = Vec::new();
+                    for _ in 0..64 {
+                        flags.push(Arc::new(AtomicBool::new(false)));
+                        wakers.push(Arc::new(Mutex::new(None)));
+                    }
+                    for op in &ops {
+                        let (c, i) = (op.as_bytes()[0], op[1..].parse::<usize>().unwrap_or(0));
+                        match c {
+                            b's' => scheduler.schedule(Manual { id: i, flag: flags[i].clone(), waker: wakers[i].clone() }).unwrap(),
+                            b'c' => {
+                                flags[i].store(true, Ordering::SeqCst);
+                                let wk = wakers[i].lock().unwrap().clone();
+                                if let Some(wk) = wk {
+                                    wk.wake();
+                                }
+                            }
+                            b'w' => {
+                                let wk = wakers[i].lock().unwrap().clone();
+                                if let Some(wk) = wk {
+                                    wk.wake();
+                                }
+                            }
+                            _ => el.dispatch(Some(Duration::ZERO), &mut ()).unwrap(),
+                        }
+                    }
+                    let v = delivered.borrow().clone();
+                    v
+                });
+                match res {
+                    Ok(v) => writeln!(out, "slab delivered=[{}] panicked=0", v.iter().map(|x| x.to_string()).collect::<Vec<_>>().join(",")).unwrap(),
+                    Err(_) => writeln!(out, "slab delivered=[] panicked=1").unwrap(),
+                }
+            }
             "stream" => {
                 let n: usize = w[1].parse().unwrap();
                 let nd: usize = w[2].parse().unwrap();
